@@ -14,7 +14,8 @@ TRUSTED_BASE = [
     "axioms: subset of {propext, Classical.choice, Quot.sound}, printed per theorem on every run; no native_decide, no bv_decide, no own axioms, no sorry",
     "hand-written Lean model of slinky (lean/Slinkyv/*.lean), tied to /repo only by this run's correspondence check (byte equality of all outputs on every generated case)",
     "modelled by hand, validated differentially only: std::path (components/push/Display/extension), serde derive behaviour on the canonical value tree, HashMap iteration as an arbitrary order, {:X}/{:08X} formatting, ASCII case mapping",
-    "not modelled: serde_yaml's scanner (bytes -> tree), clap, std::fs beyond create-parents/truncate/write, GNU ld / lld internals (LdSem is a model validated against ld 2.40 -m elf_i386)",
+    "Slinkyv.Ld (lean/Slinkyv/Ld.lean): a hand-written Lean semantics of GNU ld for the statements slinky writes; the image-level theorems are about this model of the linker; it is compared with GNU ld 2.40 (-m elf_i386) on every linked case of the run (all symbol values, section addresses/sizes, input-section addresses; evidence field ldsem_fidelity); outside it: segments without allocatable sections, orphans, output sections that end up empty without a symbol, PROVIDE semantics, 64-bit arithmetic, ld.lld",
+    "not modelled: serde_yaml's scanner (bytes -> tree), clap, std::fs beyond create-parents/truncate/write",
     "the harness (harness/src/main.rs), ./check (python) and the Lean script parser are ordinary programs",
 ]
 
